@@ -176,7 +176,13 @@ V2Class(M, TS, ev) ==
          ELSE IF ev.errk = "cond" /\ TouchedE(M, TS, ev.ctx, ev.o, ev.r) THEN <<"OK_ERR", ref>>
          ELSE IF ev.errk = "cond" /\ TouchedMistyped(M, TS, ev.o, ev.r) THEN <<"KF_V2InvalidCtxNotIgnored", ref>>
          ELSE <<"BAD_V2_ERR", ref>>
-  ELSE IF IsPlain(ev.u) THEN CheckClass(M, TS, ev)
+  ELSE IF IsPlain(ev.u) THEN
+         \* object subject: the decision must equal the reference.  One known deviation: a false
+         \* negative when the evaluation runs through goals that lie on a tuple cycle (userset
+         \* cycle, object that is its own parent): v2 prunes with a visited set shared across branches.
+         IF ev.got = "F" /\ ref = "T" /\ ev.v1 = "T" /\ \E g \in GoalKeys(M, TS, ev.o, ev.r) : OnCycle(M, TS, g)
+         THEN <<"KF_V2CycleFalseNegative", ref>>
+         ELSE CheckClass(M, TS, ev)
   ELSE IF ev.v1 \in {"T", "F"} /\ ev.got # ev.v1 THEN
          IF ev.reason # "" \/ ev.xreason # "" THEN <<"OK_V2_DOCUMENTED_DIFF", ref>>
          ELSE IF IsUserset(ev.u) /\ DocumentedShape(M, ev.o, ev.r, ev.u) THEN <<"BAD_V2_DETECTOR_MISSED", ref>>
